@@ -92,7 +92,12 @@ def run(ctx):
         "letter alone, 1-2 characters, every response type with boundary/err fields truncated at a random point, foreign codec, 8-bit garbage, "
         "long) wrapped by the repository's own WrapDnsResponse for all 8 query types) x 8 downstream codecs x 5 domains, packed/unpacked "
         "and fed to DecodeDnsResponseWithParams, QueryWithData, SendAndReceive, VersionHandshake and the probe senders through a scripted "
-        "communicator; oracle: no panic (errors are fine). A case is distinct by (wire bytes, origin | entry point, codec, domain); "
+        "communicator; oracle: no panic (errors are fine). NEGOTIATION STEPS: the real client runs its whole Handshake() (query type given or "
+        "autodetected) against the real server in memory while a man in the middle tampers with the answer to the n-th request of one command "
+        "letter (n in {0,1,2,middle,last} of a faithful run's count; that one only, or all from it on): the request delivered from another source "
+        "port (in-command BADIP), all sessions forgotten by the server, time-out, no records, SERVFAIL, NXDOMAIN, error records, the payload cut "
+        "after 1-12 bytes/half/all but 1-2, another command's letter, case folding, a flipped byte, doubled, the previous answer, the answer to "
+        "another command; a handshake that completes writes once and closes. Oracle: no panic. A case is distinct by (wire bytes, origin | entry point, codec, domain); "
         "every executed case ran its whole oracle.",
         ["the handler is entered the way handleRequest enters it (registered callback, message after Unpack); the UDP/TCP socket layer of "
          "miekg/dns is not part of the run (C01 drives it)",
